@@ -22,14 +22,16 @@ LEAN = os.path.join(VERIF, "lean")
 GEN = os.path.join(LEAN, "NfcVerif", "Gen")
 MODULE = "NfcVerif.Props.ExcFlow"          # common part; one module per group below
 MODULES = {"Tags": MODULE + "Tags", "Ndef": MODULE + "Ndef", "Drivers": MODULE + "Drivers", "Clf": MODULE + "Clf",
-           "Llc": MODULE + "Llc", "Dep": MODULE + "Dep", "Sock": MODULE + "Sock"}
+           "Llc": MODULE + "Llc", "Dep": MODULE + "Dep", "Sock": MODULE + "Sock",
+           "Clients": MODULE + "Clients", "Discovery": MODULE + "Discovery"}
 NS = "NfcVerif.ExcFlowProps."
 
 # proved once for all programs (Lemmas/ExcFlow.lean); audited with every group
 GENERIC = ["NfcVerif.ExcFlow." + t for t in (
     "sub_iff_below", "runs_mem_outs", "mem_outs_runs", "link_sound", "link_exact", "link_at",
     "escapesOnly_of_check", "canEscape_of_check", "escapesOnly_of_checkOnly", "canEscape_of_checkCan",
-    "not_escapesOnly_of_canEscape", "neverEscapes_of_checkNever", "not_neverEscapes_of_canEscape", "checkAll_split")] + [NS + "tree_ordered", NS + "world_names", NS + "only_iff_runs", NS + "only_all"]
+    "not_escapesOnly_of_canEscape", "neverEscapes_of_checkNever", "not_neverEscapes_of_canEscape", "checkAll_split",
+    "checkOnly_append", "checkNever_append", "checkCan_append")] + [NS + "tree_ordered", NS + "world_names", NS + "only_iff_runs", NS + "only_all"]
 
 GROUPS = {
     "tag_commands": {
@@ -38,7 +40,7 @@ GROUPS = {
         "what": "transceive / send_cmd_recv_rsp of Type 1-3 and the commands built on them, presence checks, NDEF "
                 "write, format/protect/authenticate of all tag classes incl. NXP, Sony, Broadcom variants: only "
                 "TagCommandError (plus the RuntimeError of the open finding, documented ValueError, AssertionError)",
-        "theorems": ["tagsOnly_ok", "tagsOnlyIO_ok", "tagsCan_ok", "tt1_transceive_escapes", "tt1_transceive_can_fail",
+        "theorems": ["tagsAll_ok", "tagsOnly_ok", "tagsOnlyIO_ok", "tagsCan_ok", "tt1_transceive_escapes", "tt1_transceive_can_fail",
                      "tt1_transceive_runtimeerror", "tt2_transceive_escapes", "tt2_transceive_can_fail",
                      "tt2_transceive_runtimeerror", "tt3_send_cmd_recv_rsp_escapes", "tt3_send_cmd_recv_rsp_can_fail",
                      "tt1_commands_escape", "tt2_commands_escape", "tt3_commands_escape", "is_present_escapes",
@@ -50,7 +52,7 @@ GROUPS = {
         "properties": ["C12", "C16"],
         "what": "IsoDepInitiator.exchange / Type4Tag.transceive / send_apdu: only Type4TagCommandError for a command; "
                 "the raw CommunicationError exists only on the presence-check path",
-        "theorems": ["tagsOnly_ok", "tagsOnlyIO_ok", "tagsCan_ok", "tt4_exchange_cmd_escapes", "tt4_transceive_cmd_escapes",
+        "theorems": ["tagsAll_ok", "tagsOnly_ok", "tagsOnlyIO_ok", "tagsCan_ok", "tt4_exchange_cmd_escapes", "tt4_transceive_cmd_escapes",
                      "tt4_exchange_cmd_can_fail", "tt4_inner_exchange_raises", "tt4_transceive_escapes",
                      "tt4_presence_check_raises_raw", "tt4_send_apdu_escapes", "tt4_exchange_cmd_escapes_io"],
     },
@@ -59,7 +61,7 @@ GROUPS = {
         "properties": ["C08", "C16"],
         "what": "nfc.tag.activate, Tag.ndef, NDEF.has_changed, _read_ndef_data of the four types: command errors "
                 "end as None",
-        "theorems": ["ndefOnly_ok", "ndefCan_ok", "tag_activate_escapes", "tt4_activate_raises", "ndef_read_escapes",
+        "theorems": ["ndefAll_ok", "ndefOnly_ok", "ndefCan_ok", "tag_activate_escapes", "tt4_activate_raises", "ndef_read_escapes",
                      "ndef_read_inner_raises", "tag_ndef_escapes"],
     },
     "drivers": {
@@ -68,7 +70,7 @@ GROUPS = {
         "what": "pn53x family, rcs380, udp, acr122 chipset: Device.send_cmd_recv_rsp / send_rsp_recv_cmd and "
                 "ContactlessFrontend.exchange let only CommunicationError subclasses or IOError through "
                 "(named residual: AssertionError, NotImplementedError)",
-        "theorems": ["driversOnly_ok", "driversCan_ok", "pn53x_chipset_command_escapes", "pn53x_chipset_raises_internal",
+        "theorems": ["driversAll_ok", "driversOnly_ok", "driversCan_ok", "pn53x_chipset_command_escapes", "pn53x_chipset_raises_internal",
                      "pn53x_send_cmd_recv_rsp_escapes", "pn53x_send_rsp_recv_cmd_escapes", "pn53x_send_cmd_recv_rsp_can_fail",
                      "rcs380_send_cmd_recv_rsp_escapes", "rcs380_send_rsp_recv_cmd_escapes", "rcs380_inner_raises_internal",
                      "udp_exchange_escapes", "clf_exchange_escapes"],
@@ -77,7 +79,7 @@ GROUPS = {
         "module": MODULES["Clf"],
         "properties": ["C18", "C09"],
         "what": "what can leave connect() / sense() / _card_connect; SystemExit of the open finding is stated",
-        "theorems": ["clfOnly_ok", "clfCan_ok", "clf_connect_escapes", "clf_connect_systemexit",
+        "theorems": ["clfAll_ok", "clfOnly_ok", "clfCan_ok", "clf_connect_escapes", "clf_connect_systemexit",
                      "clf_llcp_connect_keyboardinterrupt", "clf_sense_several_escapes", "clf_sense_single_unsupported",
                      "clf_card_connect_escapes", "clf_listen_raises_commerror"],
     },
@@ -85,7 +87,7 @@ GROUPS = {
         "module": MODULES["Llc"],
         "properties": ["C07", "C09"],
         "what": "llc.exchange, run_as_initiator/run_as_target, SNEP and handover server threads: what can end them",
-        "theorems": ["llcOnly_ok", "llcCan_ok", "llc_exchange_escapes", "llc_run_escapes", "llc_run_systemexit",
+        "theorems": ["llcAll_ok", "llcOnly_ok", "llcCan_ok", "llc_exchange_escapes", "llc_run_escapes", "llc_run_systemexit",
                      "snep_server_threads_escape", "handover_server_threads_escape", "handover_serve_encodeerror"],
     },
     "dep": {
@@ -115,6 +117,32 @@ GROUPS = {
                      "socket_api_error_only", "socket_kinds_escape", "socket_wakeup_indexerror_mapped",
                      "socket_recv_raises_indexerror", "sap_shutdown_never_raises", "socket_api_residual",
                      "llc_collect_dispatch_escape", "llc_collect_dispatch_pdu_error"],
+    },
+    "clients": {
+        "module": MODULES["Clients"],
+        "properties": ["C06", "C07", "C09"],
+        "what": "SNEP client (send_request, recv_response, connect/put/get/close) and handover client: only nfc.llcp.Error, "
+                "the documented SnepError, and for the record-level SNEP calls the ndeflib errors of encoding the argument / "
+                "decoding the answer; nothing but nfc.llcp.Error leaves the handover client",
+        "theorems": ["clientsAll_ok", "clientsOnly_ok", "clientsNever_ok", "clientsCan_ok", "clients_escape",
+                     "snep_client_escapes", "snep_client_octets_no_ndef_error", "snep_client_can_fail",
+                     "snep_get_records_decode_errors", "handover_client_escapes", "handover_client_no_ndef_error",
+                     "handover_client_decoder_raises"],
+    },
+    "discovery": {
+        "module": MODULES["Discovery"],
+        "properties": ["C13", "C18"],
+        "what": "sense_*/listen_* of every driver class (pn53x family, rcs380, udp, acr122, arygon), Device.__init__/close/mute, "
+                "nfc.clf.device.connect, ContactlessFrontend.__init__/open/close/sense/listen calling the drivers (no assumption "
+                "about a driver's sense_*/listen_* any more): what leaves them; the driver-internal Chipset.Error / StatusError "
+                "DO leave target discovery, sense() and listen(); connect(llcp=...) linked from the frontend down to the drivers is "
+                "left by CommunicationError subclasses (defect, reproduced with the UDP driver)",
+        "theorems": ["discoveryAll_ok", "discoveryOnly_ok", "discoveryNever_ok", "discoveryCan_ok", "pn53x_sense_escapes",
+                     "pn53x_listen_escapes", "rcs380_sense_escapes", "rcs380_listen_escapes",
+                     "rcs380_discovery_no_internal_commerror", "udp_sense_escapes", "udp_listen_escapes", "frontend_escapes",
+                     "driver_internal_classes_leave_discovery", "clf_sense_listen_internal_classes",
+                     "clf_sense_absorbs_commerror", "udp_discovery_raises_commerror", "clf_connect_stack_escapes",
+                     "clf_connect_llcp_commerror"],
     },
 }
 for _d in GROUPS.values():                       # fully qualified, as `Check.lean` wants them
@@ -206,6 +234,12 @@ def parse_specs(lean_dir=None):
             continue
         only[m.group(1)] = [(f, [c.strip()[4:] for c in cs.split(",") if c.strip()])
                             for f, cs in re.findall(r"\(Site\.(\w+), \[([^\]]*)\]\)", m.group(2))]
+    # the same allowed list for a list of functions: `def <name>Fns : List Site := [...]`, `def <name>Allowed : List Cls := ...`
+    allowed = {m.group(1): [c.strip()[4:] for c in m.group(2).replace("\n", " ").split(",") if c.strip()]
+               for m in re.finditer(r"def (\w+)Allowed : List Cls :=\s*\[([^\]]*)\]", text)}
+    for m in re.finditer(r"def (\w+)Fns : List Site := \[\n((?:[ \t]+[^\n]*\n)+)", text):
+        if m.group(1) in allowed:
+            only[m.group(1)] = [(f, allowed[m.group(1)]) for f in re.findall(r"Site\.(\w+)", m.group(2))]
     for m in re.finditer(r"def (\w+) : List \(Site × Cls\) := \[\n((?:[ \t]+[^\n]*\n)+)", text):
         can[m.group(1)] = re.findall(r"\(Site\.(\w+), Cls\.(\w+)\)", m.group(2))
     return only, can
@@ -278,7 +312,7 @@ def broken_theorems(diag, lean_dir=None):
             kind_ok = ("Can " in stmt) if lst.endswith("Can") else ("NeverEscapes" in stmt) if lst.endswith("Never") \
                 else ("Only" in stmt)
             direct = kind_ok and re.search(r"\bSite\.%s\b" % re.escape(f), stmt)
-            via_list = re.search(r"∈ %s\b" % re.escape(lst), stmt)
+            via_list = re.search(r"∈ %s(Fns)?\b" % re.escape(lst), stmt)
             if (direct or via_list) and m.group(1) not in names:
                 names.append(m.group(1))
     return names
